@@ -180,3 +180,183 @@ func VF_C15_f_codec() {
 	}
 	vf.Observe("len", len(serializeNameMap(n)))
 }
+
+// ---------------------------------------------------------------------------------------------
+// C15.f within one block: the state committed at the block start (what GetInitialData sees) and the changes staged by
+// earlier transactions of the SAME block are different things; "owner" in "changed only by its owner" is the CURRENT
+// owner. Two name transactions are executed the way chain.executeGovernanceTx does it (real ExecuteNameTx, then
+// StageContractState, the contract state re-opened for the next transaction, nothing committed in between) against a
+// ghost of the specification; then ANY account (symbolic) asks to update / create the name (real ValidateNameTx); then
+// the block boundary (storage update + stage) and the committed owner is compared with the ghost.
+
+var (
+	vfPartyA = append([]byte{0x02}, vfFill(32, 0x51)...)
+	vfPartyB = append([]byte{0x03}, vfFill(32, 0x62)...)
+	vfPartyC = append([]byte{0x02}, vfFill(32, 0x73)...)
+)
+
+type vfBlock struct {
+	sdb      *statedb.StateDB
+	bs       *state.BlockState
+	receiver *state.AccountState
+	party    [][]byte
+	acc      []*state.AccountState
+	bal      []*big.Int
+	// ghost
+	committed bool   // the name has a record committed at block start
+	owner     []byte // current owner (nil: free)
+	dest      []byte
+}
+
+func (w *vfBlock) open() *statedb.ContractState {
+	scs, err := statedb.OpenContractState(w.receiver.ID(), w.receiver.State(), w.sdb)
+	if err != nil {
+		panic(err)
+	}
+	return scs
+}
+
+func (w *vfBlock) checkState(ob string) {
+	scs := w.open()
+	nm := getNameMap(scs, []byte(vfName), false)
+	if w.owner == nil {
+		vf.Assert(nm == nil, ob)
+	} else {
+		vf.Assert(nm != nil, ob)
+		if nm != nil {
+			vf.Assert(bytes.Equal(nm.Owner, w.owner), ob)
+			vf.Assert(bytes.Equal(nm.Destination, w.dest), ob)
+		}
+	}
+	for i := range w.acc {
+		vf.Assert(w.acc[i].Balance().Cmp(w.bal[i]) == 0, ob)
+	}
+}
+
+// one transaction by party x: kind 0 = create, 1.. = update to party kind-1; adequate: the amount covers the price and
+// the sender has it (no case split on that)
+func (w *vfBlock) tx(x, kind int, adequate bool) {
+	amount := vf.Big("amount")
+	vf.Assume(amount.Cmp(vfBound) < 0)
+	if adequate {
+		vf.Assume(amount.Cmp(system.GetNamePrice()) >= 0)
+		vf.Assume(amount.Cmp(w.bal[x]) <= 0)
+	}
+	var payload []byte
+	if kind == 0 {
+		payload = vfPayload(types.NameCreate, []interface{}{vfName})
+	} else {
+		payload = vfPayload(types.NameUpdate, []interface{}{vfName, types.EncodeAddress(w.party[kind-1])})
+	}
+	tx := &types.TxBody{Account: w.party[x], Recipient: []byte(types.AergoName), Amount: amount.Bytes(), Payload: payload,
+		Type: types.TxType_GOVERNANCE}
+	scs := w.open()
+	_, err := ExecuteNameTx(w.bs, scs, tx, w.acc[x], w.receiver, &types.BlockHeaderInfo{No: 10, ForkVersion: 3})
+	if err == nil {
+		if e := statedb.StageContractState(scs, w.sdb); e != nil {
+			panic(e)
+		}
+	}
+	priceOK := amount.Cmp(system.GetNamePrice()) >= 0
+	fundsOK := amount.Cmp(w.bal[x]) <= 0
+	isOwner := w.owner != nil && bytes.Equal(w.party[x], w.owner)
+	if kind == 0 {
+		if err == nil {
+			vf.Reach("C15.f.block-create")
+			vf.Assert(w.owner == nil, "C15.f.create-occupied") // never re-created while somebody owns it (also in-block)
+			vf.Assert(priceOK, "C15.f.create-price")
+			vf.Assert(fundsOK, "C15.f.create-funds")
+			w.owner, w.dest = w.party[x], w.party[x]
+			w.bal[x] = new(big.Int).Sub(w.bal[x], amount)
+		} else {
+			vf.Assert(vf.Or(w.owner != nil, vf.Or(!priceOK, !fundsOK)), "C15.f.create-refused")
+		}
+	} else {
+		if err == nil {
+			vf.Reach("C15.f.block-update")
+			vf.Assert(isOwner, "C15.f.update-owner") // only the CURRENT owner (a 33-byte account is never the 12-byte name)
+			vf.Assert(priceOK, "C15.f.update-price")
+			vf.Assert(fundsOK, "C15.f.update-funds")
+			w.owner, w.dest = w.party[kind-1], w.party[kind-1]
+			w.bal[x] = new(big.Int).Sub(w.bal[x], amount)
+		} else {
+			// refusal reasons: price, funds, not the current owner, or the real rule that a name can be updated only
+			// once its creation is committed (UpdateName reads the destination committed at block start)
+			vf.Assert(vf.Or(vf.Or(!priceOK, !fundsOK), vf.Or(!isOwner, !w.committed)), "C15.f.update-refused")
+		}
+	}
+	w.checkState("C15.f.block-state")
+}
+
+func VF_C15_f_block() {
+	w := &vfBlock{}
+	w.sdb = statedb.NewStateDB(vf.NewKV(), nil, false)
+	w.bs = &state.BlockState{StateDB: w.sdb}
+	var err error
+	w.receiver, err = state.GetAccountState([]byte(types.AergoName), w.sdb)
+	if err != nil {
+		panic(err)
+	}
+	w.party = [][]byte{vfPartyA, vfPartyB, vfPartyC}
+	for _, p := range w.party {
+		b := vf.Big("balance")
+		vf.Assume(b.Cmp(vfBound) < 0)
+		w.bal = append(w.bal, b)
+		w.acc = append(w.acc, state.InitAccountState(p, w.sdb, &types.State{Balance: b.Bytes()}, &types.State{Balance: b.Bytes()}))
+	}
+	// ---- committed at block start: the name is free, or owned by A and resolving to B (owner and destination differ)
+	if vf.Choice("committed", 2) == 1 {
+		scs := w.open()
+		if err := registerOwner(scs, []byte(vfName), vfPartyA, vfPartyB); err != nil {
+			panic(err)
+		}
+		if err := statedb.VFCommitStorage(scs); err != nil {
+			panic(err)
+		}
+		if err := statedb.StageContractState(scs, w.sdb); err != nil {
+			panic(err)
+		}
+		w.committed, w.owner, w.dest = true, vfPartyA, vfPartyB
+		vf.Assert(bytes.Equal(GetOwner(w.open(), []byte(vfName)), vfPartyA), "C15.f.block-setup")
+	}
+	w.checkState("C15.f.block-setup")
+	// ---- transaction 1 (adequate amount): A or B; create, or update to B or C
+	x1 := vf.Choice("actor1", 2)
+	k1 := []int{0, 2, 3}[vf.Choice("kind1", 3)]
+	w.tx(x1, k1, true)
+	// ---- transaction 2: A, B or C; create, or update to A or C; symbolic amount
+	x2 := vf.Choice("actor2", 3)
+	k2 := []int{0, 1, 3}[vf.Choice("kind2", 3)]
+	w.tx(x2, k2, false)
+	// ---- any account asks for an update / a create now: admitted only for the current owner / only if free
+	probe := vf.Bytes("account", types.AddressLength)
+	amount := vf.Big("amount")
+	vf.Assume(amount.Cmp(vfBound) < 0)
+	vf.Reach("C15.f.block")
+	ptx := &types.TxBody{Account: probe, Recipient: []byte(types.AergoName), Amount: amount.Bytes(),
+		Payload: vfPayload(types.NameUpdate, []interface{}{vfName, types.EncodeAddress(vfPartyC)}), Type: types.TxType_GOVERNANCE}
+	if _, err := ValidateNameTx(ptx, nil, w.open()); err == nil {
+		vf.Assert(w.owner != nil && bytes.Equal(probe, w.owner), "C15.f.update-owner")
+	} else {
+		vf.Assert(vf.Or(amount.Cmp(system.GetNamePrice()) < 0, !(w.owner != nil && bytes.Equal(probe, w.owner))), "C15.f.update-refused")
+	}
+	ctx := &types.TxBody{Account: probe, Recipient: []byte(types.AergoName), Amount: amount.Bytes(),
+		Payload: vfPayload(types.NameCreate, []interface{}{vfName}), Type: types.TxType_GOVERNANCE}
+	if _, err := ValidateNameTx(ctx, nil, w.open()); err == nil {
+		vf.Assert(w.owner == nil, "C15.f.create-occupied")
+	}
+	// ---- block boundary: what is committed is the ghost's owner
+	scs := w.open()
+	if err := statedb.VFCommitStorage(scs); err != nil {
+		panic(err)
+	}
+	statedb.StageContractState(scs, w.sdb)
+	got := GetOwner(w.open(), []byte(vfName))
+	if w.owner == nil {
+		vf.Assert(got == nil, "C15.f.block-committed")
+	} else {
+		vf.Assert(bytes.Equal(got, w.owner), "C15.f.block-committed")
+		vf.Assert(bytes.Equal(GetAddress(w.open(), []byte(vfName)), w.dest), "C15.f.block-committed")
+	}
+	vf.Observe("owner", w.owner)
+}
